@@ -351,3 +351,22 @@ package app
 //@   loop 2 invariant [targets_copied_so_far] rangeindex < len(rt.Deliveries) && len(targets) == rangeindex + 1 && forall j int :: 0 <= j && j < len(targets) ==> targetAsCompiled(targets[j], rt.Deliveries[j])
 //@   loop 1 invariant [routes_so_far_are_compiled_deliver_routes] rangeindex < len(compiled.Routes) && forall j int :: 0 <= j && j < len(routes) ==> exists k int :: 0 <= k && k <= rangeindex && routes[j].Route == compiled.Routes[k].Path && routes[j].Concurrency == compiled.Routes[k].DeliverConcurrency && len(routes[j].Targets) == len(compiled.Routes[k].Deliveries) && len(compiled.Routes[k].Deliveries) > 0
 //@   ensures [C06:every_dispatch_route_is_a_compiled_deliver_route_with_all_its_targets] forall j int :: 0 <= j && j < len(result) ==> exists k int :: 0 <= k && k < len(compiled.Routes) && result[j].Route == compiled.Routes[k].Path && result[j].Concurrency == compiled.Routes[k].DeliverConcurrency && len(result[j].Targets) == len(compiled.Routes[k].Deliveries)
+
+// ---- C12/C02 wiring: the store is built with the compiled limits and retention settings ----
+//@ func queue.With*
+//@   trusted
+//@ func queue.NewSQLiteStore
+//@   trusted
+//@ func queue.NewMemoryStore
+//@   trusted
+//@ func queue.NewPostgresStore
+//@   trusted
+//@ func newQueueStore
+//@   calls queue.WithSQLiteQueueLimits requires [C12:the_sqlite_store_gets_the_compiled_depth_limit_and_policy] arg0 == compiled.QueueLimits.MaxDepth && arg1 == compiled.QueueLimits.DropPolicy
+//@   calls queue.WithQueueLimits requires [C12:the_memory_store_gets_the_compiled_depth_limit_and_policy] arg0 == compiled.QueueLimits.MaxDepth && arg1 == compiled.QueueLimits.DropPolicy
+//@   calls queue.WithSQLiteRetention requires [C02:the_sqlite_store_gets_the_compiled_queue_retention] arg0 == compiled.QueueRetention.MaxAge && arg1 == compiled.QueueRetention.PruneInterval
+//@   calls queue.WithQueueRetention requires [C02:the_memory_store_gets_the_compiled_queue_retention] arg0 == compiled.QueueRetention.MaxAge && arg1 == compiled.QueueRetention.PruneInterval
+//@   calls queue.WithSQLiteDeliveredRetention requires [C02:the_sqlite_store_gets_the_compiled_delivered_retention] arg0 == compiled.DeliveredRetention.MaxAge
+//@   calls queue.WithDeliveredRetention requires [C02:the_memory_store_gets_the_compiled_delivered_retention] arg0 == compiled.DeliveredRetention.MaxAge
+//@   calls queue.WithSQLiteDLQRetention requires [C02:the_sqlite_store_gets_the_compiled_dlq_retention] arg0 == compiled.DLQRetention.MaxAge && arg1 == compiled.DLQRetention.MaxDepth
+//@   calls queue.WithDLQRetention requires [C02:the_memory_store_gets_the_compiled_dlq_retention] arg0 == compiled.DLQRetention.MaxAge && arg1 == compiled.DLQRetention.MaxDepth
